@@ -73,6 +73,14 @@ impl FileTracker {
         Some(FileTracker { files })
     }
 
+    #[cfg(mrecordlog_verif)]
+    pub(crate) fn verif_files(&self) -> Vec<(u64, usize)> {
+        self.files
+            .iter()
+            .map(|file| (file.file_number(), Arc::strong_count(&file.file_number)))
+            .collect()
+    }
+
     /// Return the number of file tracked.
     pub fn count(&self) -> usize {
         self.files.len()
